@@ -387,6 +387,67 @@ def stop_race_runs(ctx, nt):
             ctx.count('stop-race-runs')
 
 
+def stop_between_puts_runs(ctx, nt):
+    """`schedule_stop()` of another thread lands while `add_outbound_message` is putting the transmissions of one message on the
+    queue (after the k-th put; the send loop gets the CPU only after the call has returned): the message was accepted, so all of
+    its 1 + repeat transmissions leave - a message is transmitted completely or not at all (model: an `Add` is accepted or dropped
+    as a whole, `accepted`)."""
+    for pname in ('MULTICAST_REPEAT_PARAMS', 'UNICAST_REPEAT_PARAMS'):
+        p = getattr(nt, pname)
+        for k in range(0, p.repeat + 2):
+            th = _mk_thread()[1]
+            clock = _VClock()
+            sent = []
+            puts = {'n': 0}
+            msg = mock.MagicMock()
+            msg.p_msg.header_info_block.MessageID = f'between-{pname}-{k}'
+
+            class Q(queue.PriorityQueue):
+                def put(self, *a, **kw):
+                    r = super().put(*a, **kw)
+                    puts['n'] += 1
+                    if puts['n'] == k:
+                        th.schedule_stop()
+                    return r
+            th._send_queue = Q(10000)
+
+            class FakeTime:
+                n = 0
+
+                @staticmethod
+                def time():
+                    return clock.now / 1e6
+
+                @staticmethod
+                def sleep(dt):
+                    FakeTime.n += 1
+                    clock.now += max(1, round(dt * 1e6))
+                    if FakeTime.n > 100000:
+                        raise RuntimeError('send loop does not end')
+            key = mock.MagicMock()
+            th._outbound_selector = mock.MagicMock()
+            th._outbound_selector.select = lambda timeout=None: [(key, None)]
+            th._send_msg = lambda q_msg, sock: sent.append(q_msg.repeat)
+            with mock.patch.object(nt, 'time', FakeTime):
+                try:
+                    if k == 0:
+                        th.schedule_stop()
+                    th.add_outbound_message(msg, '239.255.255.250', 3702, p)
+                    if not th._quit_send_event.is_set():
+                        th.schedule_stop()
+                    th._run_send()
+                except Exception as ex:  # noqa: BLE001
+                    ctx.fail('retransmission-loop:raised', repr(ex), {'stop_between_puts': [pname, k]})
+                    continue
+            case = {'stop_between_puts': [pname, k], 'transmitted': sorted(sent), 'left_on_queue': th._send_queue.qsize()}
+            want = 0 if k == 0 else 1 + p.repeat
+            if sorted(sent) != list(range(1, want + 1)):
+                ctx.fail('retransmission-loop:count', f'schedule_stop() after put {k} of one message ({pname}): transmissions {sorted(sent)}, '
+                         f'a message is transmitted {1 + p.repeat} times or (refused as a whole) not at all', case)
+            ctx.case(case, nontrivial=True)
+            ctx.count('stop-between-puts-runs')
+
+
 def outbound_order(nt, on_put=None):
     """program order of `register own id` / `put on the send queue` inside the real add_outbound_message (multicast set)"""
     th = _mk_thread()[1]
@@ -549,6 +610,7 @@ def run(ctx):
     lifecycle_runs(ctx, nt)
     failing_send_runs(ctx, nt)
     stop_race_runs(ctx, nt)
+    stop_between_puts_runs(ctx, nt)
     # ---- glue: every sender hands over the parameter set of its destination
     for name, mc, ps in sender_table(nt):
         want = nt.MULTICAST_REPEAT_PARAMS if mc else nt.UNICAST_REPEAT_PARAMS
@@ -849,6 +911,7 @@ def search(ctx):
     ctx.driver_ok = ok_before
     failing_send_runs(ctx, nt)
     stop_race_runs(ctx, nt)
+    stop_between_puts_runs(ctx, nt)
     if ctx.failures:
         return
     join_real_threads(ctx, nt)
@@ -900,10 +963,10 @@ def replay(ctx, obj):
         for f in c2.failures:
             print('  ', f['signature'], f['detail'])
         return bool(c2.failures)
-    if 'lifecycle' in case or 'failing_send' in case or 'stop_race' in case:
+    if 'lifecycle' in case or 'failing_send' in case or 'stop_race' in case or 'stop_between_puts' in case:
         c2 = core.Ctx('C15', 'quick', 0)
         c2.driver_ok = False
-        (lifecycle_runs if 'lifecycle' in case else failing_send_runs if 'failing_send' in case else stop_race_runs)(c2, nt)
+        (lifecycle_runs if 'lifecycle' in case else failing_send_runs if 'failing_send' in case else stop_between_puts_runs if 'stop_between_puts' in case else stop_race_runs)(c2, nt)
         for f in c2.failures:
             print('  ', f['signature'], f['detail'][:300])
         return bool(c2.failures)
